@@ -1,9 +1,11 @@
 /- One line per stream handler. -/
 import Comet.Driver.Flat
+import Comet.Driver.Dist
 namespace Comet.Driver
 
 def handlers : List Handler := [
-  FlatStream.handler
+  FlatStream.handler,
+  DistStream.handler
 ]
 
 end Comet.Driver
